@@ -148,12 +148,16 @@ class _Subst(ast.NodeTransformer):
 def _bind(callee, call, skip_self):
     """parameter -> argument AST (or list for *args); None if not bindable"""
     a = callee.args
-    if a.kwonlyargs or a.kwarg:
+    if a.kwarg:
         return None
     names = [x.arg for x in a.posonlyargs + a.args]
     if skip_self and names:
         names = names[1:]
     env = {}
+    konly = [x.arg for x in a.kwonlyargs]
+    for x, d in zip(a.kwonlyargs, a.kw_defaults):
+        if d is not None:
+            env[x.arg] = d
     defaults = a.defaults
     allnames = [x.arg for x in a.posonlyargs + a.args]
     for i, d in enumerate(defaults):
@@ -169,10 +173,10 @@ def _bind(callee, call, skip_self):
     if a.vararg:
         env[a.vararg.arg] = rest
     for k in call.keywords:
-        if k.arg is None or k.arg not in names:
+        if k.arg is None or k.arg not in names + konly:
             return None
         env[k.arg] = k.value
-    for n in names:
+    for n in names + konly:
         if n not in env:
             return None
     return env
@@ -877,6 +881,7 @@ class Inliner:
         self.scalarise_namedtuples()
         self.desugar_globals_dict()
         self.lower_conditional_arguments()
+        self.split_on_conditional_tuple()
         self.split_tuple_assigns()
         ast.fix_missing_locations(self.tree)
         return self.tree
@@ -1033,6 +1038,137 @@ class Inliner:
                     for n_ in (new, a, b, a.value, b.value):
                         ast.copy_location(n_, st)
                     blk[i] = new
+
+    def split_on_conditional_tuple(self):
+        """``a, b = (A1, B1) if C else (A2, B2)`` followed by at most six
+        further statements of the block becomes ``if C: a, b = A1, B1; rest
+        else: a, b = A2, B2; rest`` (tail duplication: the same statements
+        run in the same order either way).  In each arm, a target bound to a
+        call-free value whose free names are not rebound in the rest is
+        substituted into the rest.  ``zip(X, itertools.repeat(c))`` is
+        written as the generator ``((z, c) for z in X)``."""
+        class Z(ast.NodeTransformer):
+
+            def visit_Call(self_, n):
+                n = self_.generic_visit(n)
+                if isinstance(n.func, ast.Name) and n.func.id == 'zip' and \
+                        len(n.args) == 2 and not n.keywords and isinstance(
+                            n.args[1], ast.Call) and ast.unparse(
+                                n.args[1].func) in ('itertools.repeat',
+                                                    'repeat') and len(
+                                                        n.args[1].args) == 1 \
+                        and isinstance(n.args[1].args[0], ast.Constant):
+                    g = ast.GeneratorExp(
+                        elt=ast.Tuple(elts=[ast.Name(id='z__', ctx=ast.Load()),
+                                            n.args[1].args[0]],
+                                      ctx=ast.Load()),
+                        generators=[ast.comprehension(
+                            target=ast.Name(id='z__', ctx=ast.Store()),
+                            iter=n.args[0], ifs=[], is_async=0)])
+                    return ast.copy_location(g, n)
+                return n
+
+        Z().visit(self.tree)
+
+        def stores(nodes):
+            out = set()
+            for st in nodes:
+                for y in ast.walk(st):
+                    if isinstance(y, ast.Name) and isinstance(
+                            y.ctx, (ast.Store, ast.Del)):
+                        out.add(y.id)
+            return out
+
+        def arm(targets, values, rest, at):
+            rest = [clone(r) for r in rest]
+            rebound = stores(rest)
+            keep = []
+            env = {}
+            for t, v in zip(targets, values):
+                free = {y.id for y in ast.walk(v) if isinstance(y, ast.Name)}
+                pure = not any(isinstance(y, (ast.Call, ast.Yield, ast.Await,
+                                              ast.NamedExpr, ast.Lambda))
+                               for y in ast.walk(v))
+                if isinstance(t, ast.Name) and pure and t.id not in rebound \
+                        and not (free & (rebound | {x.id for x in targets
+                                                    if isinstance(
+                                                        x, ast.Name)})):
+                    env[t.id] = v
+                else:
+                    keep.append(ast.Assign(targets=[clone(t)],
+                                           value=clone(v)))
+            if env:
+                sub = _Subst(env)
+                rest = [sub.visit(r) for r in rest]
+
+                class J(ast.NodeTransformer):
+
+                    def visit_JoinedStr(self_, n):
+                        n = self_.generic_visit(n)
+                        vals = []
+                        for p_ in n.values:
+                            if isinstance(p_, ast.FormattedValue) and \
+                                    isinstance(p_.value, ast.Constant) and \
+                                    isinstance(p_.value.value, str) and \
+                                    p_.conversion == -1 and \
+                                    p_.format_spec is None:
+                                p_ = ast.Constant(value=p_.value.value)
+                            if isinstance(p_, ast.Constant) and vals and \
+                                    isinstance(vals[-1], ast.Constant):
+                                vals[-1] = ast.Constant(
+                                    value=vals[-1].value + p_.value)
+                            elif not (isinstance(p_, ast.Constant)
+                                      and p_.value == ''):
+                                vals.append(p_)
+                        n.values = vals
+                        return n
+
+                rest = [J().visit(r) for r in rest]
+            out = keep + rest
+            for x in out:
+                for y in ast.walk(x):
+                    ast.copy_location(y, at)
+            return out or [ast.Pass()]
+
+        changed = True
+        while changed:
+            changed = False
+            for x in ast.walk(self.tree):
+                for fld in ('body', 'orelse', 'finalbody'):
+                    blk = getattr(x, fld, None)
+                    if not (isinstance(blk, list) and blk and isinstance(
+                            blk[0], ast.stmt)):
+                        continue
+                    for i, st in enumerate(blk):
+                        if not (isinstance(st, ast.Assign) and len(
+                                st.targets) == 1 and isinstance(
+                                    st.targets[0], ast.Tuple) and isinstance(
+                                        st.value, ast.IfExp)):
+                            continue
+                        ie = st.value
+                        n = len(st.targets[0].elts)
+                        if not (isinstance(ie.body, ast.Tuple) and isinstance(
+                                ie.orelse, ast.Tuple) and len(
+                                    ie.body.elts) == n and len(
+                                        ie.orelse.elts) == n):
+                            continue
+                        rest = blk[i + 1:]
+                        if len(rest) > 6:
+                            continue
+                        a = arm(st.targets[0].elts, ie.body.elts, rest, st)
+                        b = arm(st.targets[0].elts, ie.orelse.elts, rest, st)
+                        new = ast.If(test=ie.test, body=a, orelse=b)
+                        ast.copy_location(new, st)
+                        blk[i:] = [new]
+                        self.notes.append(
+                            f'conditional tuple assignment at line '
+                            f'{st.lineno} split into two arms')
+                        changed = True
+                        break
+                    if changed:
+                        break
+                if changed:
+                    break
 
     def desugar_globals_dict(self):
         """``globals()['NAME']`` (directly or through a local bound once to
@@ -2103,18 +2239,27 @@ def lower_modern_syntax(tree):
                     notes.append(f'match statement at line {st.lineno} '
                                  'written as an if/elif chain')
                     continue
-            if isinstance(st, ast.If):
-                ws = first_position_walrus(st.test)
+            fld_ = 'test' if isinstance(st, ast.If) else (
+                'value' if isinstance(st, (ast.Assign, ast.Return, ast.Expr))
+                and getattr(st, 'value', None) is not None else None)
+            if fld_ is not None:
+                top = getattr(st, fld_)
+                ws = first_position_walrus(top)
                 # only when evaluation order is obviously unchanged: the
-                # binding is the left-most operand of the test
-                if ws:
-                    left = st.test
+                # binding is the first operand evaluated
+                if ws and not (isinstance(st, ast.Assign) and any(
+                        not isinstance(t, ast.Name) for t in st.targets)):
+                    left = top
                     while isinstance(left, (ast.Compare, ast.BoolOp,
-                                            ast.UnaryOp, ast.BinOp)):
+                                            ast.UnaryOp, ast.BinOp,
+                                            ast.IfExp)):
                         left = left.left if isinstance(
                             left, (ast.Compare, ast.BinOp)) else (
                                 left.values[0] if isinstance(
-                                    left, ast.BoolOp) else left.operand)
+                                    left, ast.BoolOp) else (
+                                        left.test if isinstance(
+                                            left, ast.IfExp)
+                                        else left.operand))
                     if left is ws[0]:
                         w = ws[0]
                         a = ast.Assign(targets=[ast.Name(id=w.target.id,
@@ -2122,7 +2267,7 @@ def lower_modern_syntax(tree):
                                        value=w.value)
                         ast.copy_location(a, st)
                         ast.copy_location(a.targets[0], st)
-                        st.test = W([w]).visit(st.test)
+                        setattr(st, fld_, W([w]).visit(top))
                         blk.insert(i, a)
                         notes.append(f'walrus at line {st.lineno} hoisted')
                         continue
@@ -2161,6 +2306,197 @@ def lower_modern_syntax(tree):
             i += 1
 
     lower_block(tree.body)
+
+    # typing.NamedTuple classes without methods: the namedtuple() call
+    for i, st in enumerate(list(tree.body)):
+        if not (isinstance(st, ast.ClassDef) and len(st.bases) == 1
+                and ast.unparse(st.bases[0]) in ('typing.NamedTuple',
+                                                 'NamedTuple')
+                and not st.keywords and not st.decorator_list):
+            continue
+        fields, defaults, ok = [], [], True
+        for b in st.body:
+            if isinstance(b, ast.Expr) and isinstance(b.value, ast.Constant):
+                continue  # docstring
+            if isinstance(b, ast.AnnAssign) and isinstance(
+                    b.target, ast.Name) and b.simple:
+                fields.append(b.target.id)
+                if b.value is not None:
+                    defaults.append(b.value)
+                elif defaults:
+                    ok = False
+                continue
+            ok = False
+        if not ok or not fields:
+            continue
+        call = ast.Call(
+            func=ast.Attribute(value=ast.Name(id='collections',
+                                              ctx=ast.Load()),
+                               attr='namedtuple', ctx=ast.Load()),
+            args=[ast.Constant(value=st.name),
+                  ast.List(elts=[ast.Constant(value=f_) for f_ in fields],
+                           ctx=ast.Load())],
+            keywords=([ast.keyword(arg='defaults', value=ast.Tuple(
+                elts=defaults, ctx=ast.Load()))] if defaults else []))
+        a = ast.Assign(targets=[ast.Name(id=st.name, ctx=ast.Store())],
+                       value=call)
+        ast.copy_location(a, st)
+        tree.body[tree.body.index(st)] = a
+        notes.append(f'typing.NamedTuple class {st.name} written as '
+                     'collections.namedtuple')
+
+    # pathlib path arithmetic: Path(A) / B / C -> os.path.join(A, B, C);
+    # str() / os.fspath() of such a join -> the join
+    def path_ctor(e):
+        return isinstance(e, ast.Call) and ast.unparse(e.func) in (
+            'pathlib.Path', 'pathlib.PurePath', 'pathlib.PosixPath',
+            'pathlib.PurePosixPath', 'Path', 'PurePath') and e.args and \
+            not e.keywords
+
+    def is_join(e):
+        return isinstance(e, ast.Call) and ast.unparse(
+            e.func) == 'os.path.join'
+
+    class P(ast.NodeTransformer):
+
+        def visit_BinOp(self_, n):
+            n = self_.generic_visit(n)
+            if isinstance(n.op, ast.Div):
+                if path_ctor(n.left):
+                    j = ast.Call(func=ast.parse('os.path.join',
+                                                mode='eval').body,
+                                 args=list(n.left.args) + [n.right],
+                                 keywords=[])
+                    j._from_pathlib = True
+                    return ast.copy_location(j, n)
+                if is_join(n.left) and getattr(n.left, '_from_pathlib',
+                                               False):
+                    n.left.args.append(n.right)
+                    return n.left
+            return n
+
+        def visit_Call(self_, n):
+            n = self_.generic_visit(n)
+            if ast.unparse(n.func) in ('str', 'os.fspath') and len(
+                    n.args) == 1 and not n.keywords and is_join(
+                        n.args[0]) and getattr(n.args[0], '_from_pathlib',
+                                               False):
+                notes.append(f'pathlib join at line {n.lineno} written as '
+                             'os.path.join')
+                return n.args[0]
+            return n
+
+    P().visit(tree)
+
+    # functools.partial
+    def is_partial(e):
+        return isinstance(e, ast.Call) and ast.unparse(e.func) in (
+            'functools.partial', 'partial') and e.args and isinstance(
+                e.args[0], (ast.Name, ast.Attribute)) and not any(
+                    isinstance(a, ast.Starred) for a in e.args) and all(
+                        k.arg is not None for k in e.keywords)
+
+    def has_call(e):
+        return any(isinstance(x, (ast.Call, ast.Await, ast.Yield,
+                                  ast.NamedExpr)) for x in ast.walk(e))
+
+    for f in [x for x in ast.walk(tree) if isinstance(x, ast.FunctionDef)]:
+        own = []
+
+        def collect(n):
+            for c in ast.iter_child_nodes(n):
+                if isinstance(c, (ast.FunctionDef, ast.ClassDef)):
+                    continue
+                own.append(c)
+                collect(c)
+
+        collect(f)
+        nbind = {a.arg: 1 for a in f.args.args + f.args.kwonlyargs}
+        for x in own:
+            if isinstance(x, ast.Name) and isinstance(x.ctx, (ast.Store,
+                                                              ast.Del)):
+                nbind[x.id] = nbind.get(x.id, 0) + 1
+        par = {}
+        for x in [f] + own:
+            for c in ast.iter_child_nodes(x):
+                par[id(c)] = x
+
+        def stable(e):
+            return not has_call(e) and all(
+                nbind.get(y.id, 0) <= 1 for y in ast.walk(e)
+                if isinstance(y, ast.Name))
+
+        # (b) bound once, used only as callee
+        for st in [x for x in own if isinstance(x, ast.Assign)]:
+            if not (len(st.targets) == 1 and isinstance(
+                    st.targets[0], ast.Name) and is_partial(st.value)):
+                continue
+            v = st.targets[0].id
+            if nbind.get(v, 0) != 1:
+                continue
+            uses = [x for x in own if isinstance(x, ast.Name) and x.id == v
+                    and isinstance(x.ctx, ast.Load)]
+            if not uses or not all(
+                    isinstance(par.get(id(u)), ast.Call)
+                    and par[id(u)].func is u for u in uses):
+                continue
+            pc = st.value
+            if not all(stable(a) for a in pc.args) or not all(
+                    stable(k.value) for k in pc.keywords):
+                continue
+            for u in uses:
+                c = par[id(u)]
+                c.func = clone(pc.args[0])
+                c.args = [clone(a) for a in pc.args[1:]] + c.args
+                given = {k.arg for k in c.keywords}
+                c.keywords = [clone(k) for k in pc.keywords
+                              if k.arg not in given] + c.keywords
+            for x in [f] + own:
+                for fld in ('body', 'orelse', 'finalbody'):
+                    blk = getattr(x, fld, None)
+                    if isinstance(blk, list) and st in blk:
+                        blk.remove(st)
+                        if not blk:
+                            blk.append(ast.Pass())
+            notes.append(f'{f.name}: functools.partial "{v}" written out at '
+                         f'its {len(uses)} call(s)')
+        # (a) a partial used as a value: the equivalent lambda
+        for x in own:
+            for fld, val in ast.iter_fields(x):
+                items = val if isinstance(val, list) else [val]
+                for k_, e in enumerate(items):
+                    if not (isinstance(e, ast.AST) and is_partial(e)):
+                        continue
+                    if isinstance(x, ast.Assign) and x in [
+                            st_ for st_ in own if isinstance(st_, ast.Assign)
+                            and len(st_.targets) == 1 and isinstance(
+                                st_.targets[0], ast.Name) and nbind.get(
+                                    st_.targets[0].id, 0) == 1]:
+                        continue  # handled (or declined) by (b)
+                    if not all(stable(a) for a in e.args) or not all(
+                            stable(k.value) for k in e.keywords):
+                        continue
+                    lam = ast.Lambda(
+                        args=ast.arguments(
+                            posonlyargs=[], args=[], kwonlyargs=[],
+                            kw_defaults=[], defaults=[],
+                            vararg=ast.arg(arg='__pa'),
+                            kwarg=ast.arg(arg='__pk')),
+                        body=ast.Call(
+                            func=e.args[0],
+                            args=list(e.args[1:]) + [ast.Starred(
+                                value=ast.Name(id='__pa', ctx=ast.Load()),
+                                ctx=ast.Load())],
+                            keywords=list(e.keywords) + [ast.keyword(
+                                arg=None, value=ast.Name(id='__pk',
+                                                         ctx=ast.Load()))]))
+                    ast.copy_location(lam, e)
+                    if isinstance(val, list):
+                        val[k_] = lam
+                    else:
+                        setattr(x, fld, lam)
+                    notes.append(f'{f.name}: functools.partial value at '
+                                 f'line {e.lineno} written as a lambda')
     ast.fix_missing_locations(tree)
     return notes
 
